@@ -369,6 +369,12 @@ def run_case(case):
 
 
 def replay_case(case):
+    if "featureless" in case:
+        from vf.core import Report
+
+        rep = Report(ID, LEVEL, case.get("tier", "quick"), 0)
+        featureless(case.get("tier", "quick"), rep)
+        return {"nontrivial": True, "outcome": "replay", "viol": [(s_, m_) for s_, m_, _ in rep.violations]}
     if "same_object" in case:
         from vf.core import Report
 
@@ -463,9 +469,100 @@ def same_object(tier, report):
     return nseq, ncall
 
 
+def featureless(tier, report):
+    """Tables WITHOUT features (fresh picks, from_axes results) in concat / concat_with / append, next to featured and empty
+    ones.  Rows are identified by their positions (unique per uid).  Oracle: the result holds the rows of the operands in
+    order; rows of a feature-less operand carry nulls in every feature column; the three containers agree in length; operands
+    other than the receiver of append are left alone.  append of a table with columns the receiver lacks must be rejected and
+    leave the receiver alone."""
+    from scipy.spatial.transform import Rotation
+
+    from acryo import Molecules
+
+    def bare(uids):
+        uids = list(uids)
+        if not uids:
+            return Molecules.empty()
+        return Molecules(np.array([_f_pos(u) for u in uids], dtype=np.float32), Rotation.from_rotvec(np.array([_f_rotvec(u) for u in uids])))
+
+    parts = {"featured(0,1)": ("F", (0, 1)), "featured(2)": ("F", (2,)), "bare(3)": ("B", (3,)), "bare(10,11)": ("B", (10, 11)), "empty": ("B", ()), "featured-empty": ("F", ())}
+    build = lambda spec: make(spec[1]) if spec[0] == "F" else bare(spec[1])  # noqa
+    names = list(parts)
+    combos = list(itertools.permutations(names, 2)) + ([c for c in itertools.permutations(names, 3)] if tier == "thorough" else
+                                                       [("featured(0,1)", "bare(3)", "featured(2)"), ("bare(3)", "featured(0,1)", "bare(10,11)"), ("bare(3)", "empty", "featured(2)")])
+    opsx = [("concat", lambda ms: Molecules.concat(ms)), ("concat_with", lambda ms: _fold(ms, lambda a, b: a.concat_with(b))), ("append", lambda ms: _fold([ms[0].copy()] + list(ms[1:]), lambda a, b: a.append(b)))]
+    n = 0
+    for combo in combos:
+        for oname, fn in opsx:
+            ms = [build(parts[c]) for c in combo]
+            before = [digest(m) for m in ms]
+            case = {"engine": "E2", "featureless": [oname] + list(combo), "tier": tier}
+            want_u = [u for c in combo for u in parts[c][1]]
+            kinds = [parts[c][0] for c in combo for _ in parts[c][1]]
+            # append: a receiver with rows but without the columns of the appended table must reject it
+            must_raise = may_raise = False
+            if oname == "append":
+                # a receiver without rows takes over the table appended to it (its own schema is not binding); a receiver
+                # with rows rejects columns it lacks, even when the appended table has no rows
+                k0, u0 = parts[combo[0]]
+                have_rows, have_cols = bool(u0), k0 == "F"
+                for c in combo[1:]:
+                    k, u = parts[c]
+                    if not have_rows:
+                        have_cols = k == "F"
+                    elif k == "F" and not have_cols:
+                        may_raise = True
+                        must_raise = must_raise or bool(u)
+                    have_rows = have_rows or bool(u)
+            n += 1
+            try:
+                r = fn(ms)
+            except Exception as e:  # noqa
+                if not (must_raise or may_raise):
+                    report.violations.append((f"{ID}|featureless|{oname}|raised-{type(e).__name__}", f"{oname} of {list(combo)} raised {type(e).__name__}: {str(e)[:160]}", case))
+                elif [digest(m) for m in ms] != before:
+                    report.violations.append((f"{ID}|featureless|{oname}|operand-altered-by-rejected-call", f"{oname} of {list(combo)}", case))
+                continue
+            if must_raise:
+                report.violations.append((f"{ID}|invalid-input-accepted|append-extra-columns-onto-bare", f"append of {list(combo)} did not raise; result: {r.count()} molecules, features {r.features.shape}", case))
+                continue
+            if [digest(m) for m in ms] != before:
+                report.violations.append((f"{ID}|featureless|{oname}|operand-altered", f"{oname} of {list(combo)} changed an operand", case))
+            f = r.features
+            nrow = r.count()
+            any_feat = any(k == "F" for k in kinds)
+            if nrow != len(want_u) or r.pos.shape != (nrow, 3) or (nrow and len(r.rotator) != nrow) or (f.width > 0 and f.height != nrow) or (any_feat and f.width == 0):
+                report.violations.append((f"{ID}|featureless|{oname}|length-mismatch", f"{oname} of {list(combo)}: {r.pos.shape[0]} positions, features {f.shape}, expected {len(want_u)} rows", case))
+                continue
+            bad = None
+            for i, (u, k) in enumerate(zip(want_u, kinds)):
+                if np.abs(r.pos[i] - _f_pos(u)).max() > 1e-5 or (Rotation.from_rotvec(_f_rotvec(u)).inv() * r.rotator[i]).magnitude() > 1e-5:
+                    bad = f"row {i} is not molecule {u}"
+                    break
+                if f.width:
+                    row = f.row(i, named=True)
+                    if k == "F" and (row.get("uid") != u or row.get("k") != K[u] or row.get("s") != S[u] or row.get("b") != B[u]):
+                        bad = f"row {i} (molecule {u}) carries features {row}"
+                        break
+                    if k == "B" and any(v is not None for v in row.values()):
+                        bad = f"row {i} (feature-less molecule {u}) carries features {row}"
+                        break
+            if bad:
+                report.violations.append((f"{ID}|featureless|{oname}|wrong-rows", f"{oname} of {list(combo)}: {bad}", case))
+    return n
+
+
+def _fold(ms, f):
+    acc = ms[0]
+    for m in ms[1:]:
+        acc = f(acc, m)
+    return acc
+
+
 def extra(tier, seed, report):
     st = explore(tier, report)
     nseq, ncall = same_object(tier, report)
+    report.cov["featureless_combinations"] = featureless(tier, report)
     report.cov["same_object_sequences"] = nseq
     report.cov["same_object_calls"] = ncall
     report.cov["states"] = st["states"]
